@@ -33,21 +33,7 @@ VARIABLES prog,      \* the program being evaluated
 vars == <<prog, store, delta, todo, cur, phase, round, created, outcome>>
 
 ---------------------------------------------------------------------------
-\* Strongly connected components of the dependency graph, and valid evaluation orders.
-Reach(E, P) ==
-  LET R0 == {<<p, p>> : p \in P} \cup {<<e[1], e[2]>> : e \in E}
-      RECURSIVE Close(_)
-      Close(R) == LET R3 == R \cup UNION {{<<a[1], b[2]>> : b \in {x \in R : x[1] = a[2]}} : a \in R} IN
-                  IF R3 = R THEN R ELSE Close(R3)
-  IN Close(R0)
-SCCs(rules) ==
-  LET P == HeadPreds(rules)
-      R == Reach(DepEdges(rules), P) IN
-  {{q \in P : <<p, q>> \in R /\ <<q, p>> \in R} : p \in P}
-\* component c may be evaluated when everything it depends on is done
-ReadyComp(rules, c, done) ==
-  \A e \in DepEdges(rules) : e[1] \in c => (e[2] \in c \/ e[2] \in done)
-
+\* (SCCs, ReadyComp: see Semantics.tla)
 ---------------------------------------------------------------------------
 \* rewrite.Rewrite: a do-rule whose body is not a single positive atom is split.
 SortedVars(c) == SetToSeq(BodyVars(c))   \* any fixed order (rewrite.makeHead sorts by hash)
